@@ -395,15 +395,36 @@ structure PW where
   st : Store Value
   ctr : Nat
 
-/-- a new object with content `c` -/
-def PW.alloc (ns : Nat) (w : PW) (c : Value) : PW × Tok :=
-  ({ st := w.st.set (ns, w.ctr) c, ctr := w.ctr + 1 }, (ns, w.ctr))
+/-- a piece of Python code that runs inside one invocation: it reads and writes the heap and creates
+objects (state monad over `PW`) -/
+def M (α : Type) : Type := PW → PW × α
+
+/-- run the code in a private world -/
+def M.run {α : Type} (k : M α) (w : PW) : PW × α := k w
+
+instance : Monad M where
+  pure a := fun w => (w, a)
+  bind k g := fun w => (g (k.run w).2).run (k.run w).1
+
+/-- a new object with content `c`, named in namespace `ns` -/
+def allocM (ns : Nat) (c : Value) : M Tok :=
+  fun w => ({ st := w.st.set (ns, w.ctr) c, ctr := w.ctr + 1 }, (ns, w.ctr))
+
+/-- the content of object `t` -/
+def readM (t : Tok) : M Value := fun w => (w, w.st t)
+
+/-- mutation in place: object `t` gets the content `v` -/
+def writeM (t : Tok) (v : Value) : M Unit := fun w => ({ w with st := w.st.set t v }, ())
+
+/-- mutation in place by a function of the old content -/
+def updM (t : Tok) (f : Value → Value) : M Unit := do
+  let v ← readM t
+  writeM t (f v)
 
 /-- `copy.deepcopy(obj)` of one object -/
-def PW.copy (ns : Nat) (w : PW) (t : Tok) : PW × Tok := w.alloc ns (w.st t)
-
-/-- mutation in place -/
-def PW.upd (w : PW) (t : Tok) (f : Value → Value) : PW := { w with st := w.st.set t (f (w.st t)) }
+def copyM (ns : Nat) (t : Tok) : M Tok := do
+  let v ← readM t
+  allocM ns v
 
 def ctxOf : Value → Ctx
   | .dict kvs => kvs
@@ -414,15 +435,18 @@ def ctxEmpty (v : Value) : Bool := (ctxOf v).isEmpty
 
 /-- `data, context = lena.flow.get_data_context(value)`: the context object of a pair; for a bare
 value a new `{}` -/
-def getCtx (ns : Nat) (w : PW) (x : HItem) : PW × Tok :=
+def getCtx (ns : Nat) (x : HItem) : M Tok :=
   match x.ctxTok with
-  | some c => (w, c)
-  | none => w.alloc ns (.dict [])
+  | some c => pure c
+  | none => allocM ns (.dict [])
 
 /-- `math.elements._maybe_with_context(data, context)`: `(data, context)` if the context is not
 empty, else `data` -/
-def maybeWithContext (w : PW) (d : Value) (c : Tok) : HItem :=
-  if ctxEmpty (w.st c) then mkItem d none else mkItem d (some c)
+def maybeWithContext (d : Value) (c : Tok) : M HItem := do
+  let v ← readM c
+  match ctxEmpty v with
+  | true => pure (mkItem d none)
+  | false => pure (mkItem d (some c))
 
 /-- the `sum_seq` of a `Mean` -/
 inductive SumSeq where
@@ -472,115 +496,117 @@ def dataInt (x : HItem) : Int :=
   | _ => 0
 
 /-- the object `self._cur_context`; the private initial `{}` is allocated when it is first needed -/
-def curTok (ns : Nat) (w : PW) (s : AccSt) : PW × Tok :=
+def curTok (ns : Nat) (s : AccSt) : M Tok :=
   match s.cur with
-  | some c => (w, c)
-  | none => w.alloc ns (.dict [])
+  | some c => pure c
+  | none => allocM ns (.dict [])
 
 /-- `fill(value)` of the accumulators -/
-def accFill (ns : Nat) (k : AccKind) (w : PW) (s : AccSt) (x : HItem) : PW × AccSt :=
+def accFill (ns : Nat) (k : AccKind) (s : AccSt) (x : HItem) : M AccSt :=
   match k with
-  | .sum | .dsum | .reqSum =>
+  | .sum | .dsum | .reqSum => do
     -- data, context = get_data_context(value); self._total += data; self._cur_context = context
-    let g := getCtx ns w x
-    (g.1, { s with total := s.total + dataInt x, cur := some g.2 })
-  | .count _ =>
+    let c ← getCtx ns x
+    pure { s with total := s.total + dataInt x, cur := some c }
+  | .count _ => do
     -- self.count += 1; self._cur_context = lena.flow.get_context(value)
-    let g := getCtx ns w x
-    (g.1, { s with count := s.count + 1, cur := some g.2 })
-  | .mean _ _ | .vmc _ _ =>
+    let c ← getCtx ns x
+    pure { s with count := s.count + 1, cur := some c }
+  | .mean _ _ | .vmc _ _ => do
     -- data, context = get_data_context(value); (sums filled with data); self._count += 1; self._cur_context = context
-    let g := getCtx ns w x
-    (g.1, { s with total := s.total + dataInt x, count := s.count + 1, cur := some g.2 })
-  | .vectorize _ =>
-    let g := getCtx ns w x
-    (g.1, { s with cur := some g.2 })
-  | .histogram =>
+    let c ← getCtx ns x
+    pure { s with total := s.total + dataInt x, count := s.count + 1, cur := some c }
+  | .vectorize _ => do
+    let c ← getCtx ns x
+    pure { s with cur := some c }
+  | .histogram => do
     -- data, self._cur_context = lena.flow.get_data_context(value)
-    let g := getCtx ns w x
-    (g.1, { s with count := s.count + 1, cur := some g.2 })
-  | .sib _ lo hi =>
+    let c ← getCtx ns x
+    pure { s with count := s.count + 1, cur := some c }
+  | .sib _ lo hi => do
     -- data, context = get_data_context(val); context = copy.deepcopy(context)
-    let g := getCtx ns w x
-    let c := g.1.copy ns g.2
+    let c ← getCtx ns x
+    let d ← copyM ns c
     -- underflow / overflow: return
-    if dataInt x < lo || dataInt x ≥ hi then (c.1, s)
+    if dataInt x < lo || dataInt x ≥ hi then pure s
     -- subarr.fill(val); self._cur_context = context
-    else (c.1, { s with total := s.total + dataInt x, cur := some c.2 })
+    else pure { s with total := s.total + dataInt x, cur := some d }
   | .store | .keepLast | .reqStore =>
     -- self.group.append(value)
-    (w, { s with group := s.group ++ [x] })
+    pure { s with group := s.group ++ [x] }
 
 /-- `context["variable"] = {"name": name}` (`Variable._update_context` for an untyped variable on a
 context without typed variable) -/
 def setVariable (name : String) (v : Value) : Value :=
   .dict (dictSet (ctxOf v) "variable" (.dict [("name", .str name)]))
 
-/-- `compute()` / `request()` of the accumulators -/
-def accCompute (ns : Nat) (k : AccKind) (w : PW) (s : AccSt) : PW × AccSt × Resp Skel :=
+/-- `compute()` / `request()` of the accumulators: the new state and what is yielded -/
+def accCompute (ns : Nat) (k : AccKind) (s : AccSt) : M (AccSt × Resp Skel) :=
   match k with
-  | .sum | .dsum =>
+  | .sum | .dsum => do
     -- if not self._cur_context: yield self._total else: yield (self._total, copy.deepcopy(self._cur_context))
-    let c := curTok ns w s
-    let s' := { s with cur := some c.2 }
-    if ctxEmpty (c.1.st c.2) then (c.1, s', { outs := [mkItem (.int s.total) none] })
-    else
-      let d := c.1.copy ns c.2
-      (d.1, s', { outs := [mkItem (.int s.total) (some d.2)] })
-  | .reqSum =>
-    let c := curTok ns w s
-    let d := c.1.copy ns c.2
-    (d.1, { s with cur := some c.2 }, { outs := [mkItem (.int s.total) (some d.2)] })
-  | .count name =>
+    let c ← curTok ns s
+    let v ← readM c
+    match ctxEmpty v with
+    | true => pure ({ s with cur := some c }, { outs := [mkItem (.int s.total) none] })
+    | false => do
+      let d ← copyM ns c
+      pure ({ s with cur := some c }, { outs := [mkItem (.int s.total) (some d)] })
+  | .reqSum => do
+    let c ← curTok ns s
+    let d ← copyM ns c
+    pure ({ s with cur := some c }, { outs := [mkItem (.int s.total) (some d)] })
+  | .count name => do
     -- self._cur_context.update({self.name: self.count}); yield (self.count, copy.deepcopy(self._cur_context))
-    let c := curTok ns w s
-    let w1 := c.1.upd c.2 (fun v => .dict (dictSet (ctxOf v) name (.int s.count)))
-    let d := w1.copy ns c.2
-    (d.1, { s with cur := some c.2 }, { outs := [mkItem (.int s.count) (some d.2)] })
+    let c ← curTok ns s
+    updM c (fun v => .dict (dictSet (ctxOf v) name (.int s.count)))
+    let d ← copyM ns c
+    pure ({ s with cur := some c }, { outs := [mkItem (.int s.count) (some d)] })
   | .mean sumSeq passOnEmpty =>
     if s.count = 0 then
-      if passOnEmpty then (w, s, {}) else (w, s, { err := some "LenaZeroDivisionError" })
-    else
-      let c := curTok ns w s
-      let s' := { s with cur := some c.2 }
+      if passOnEmpty then pure (s, {}) else pure (s, { err := some "LenaZeroDivisionError" })
+    else do
+      let c ← curTok ns s
       -- context = copy.deepcopy(self._cur_context); [update_recursively(context, scont)]
-      let d := c.1.copy ns c.2
-      let first := maybeWithContext d.1 (.quot s.total s.count) d.2
+      let d ← copyM ns c
+      let first ← maybeWithContext (.quot s.total s.count) d
       match sumSeq with
-      | some (.sumCount name) =>
+      | some (.sumCount name) => do
         -- for sval in sums[1:]: context = copy.deepcopy(self._cur_context); update_recursively(context, scont)
-        let e := d.1.copy ns c.2
-        let w2 := e.1.upd e.2 (fun v => .dict (dictSet (ctxOf v) name (.int s.count)))
-        (w2, s', { outs := [first, mkItem (.int s.count) (some e.2)] })
-      | _ => (d.1, s', { outs := [first] })
+        let e ← copyM ns c
+        updM e (fun v => .dict (dictSet (ctxOf v) name (.int s.count)))
+        pure ({ s with cur := some c }, { outs := [first, mkItem (.int s.count) (some e)] })
+      | _ => pure ({ s with cur := some c }, { outs := [first] })
   | .vmc corrected passOnEmpty =>
     if s.count = 0 then
-      if passOnEmpty then (w, s, {}) else (w, s, { err := some "LenaZeroDivisionError" })
-    else if corrected && s.count == 1 then (w, s, { err := some "LenaZeroDivisionError" })
-    else
+      if passOnEmpty then pure (s, {}) else pure (s, { err := some "LenaZeroDivisionError" })
+    else if corrected && s.count == 1 then pure (s, { err := some "LenaZeroDivisionError" })
+    else do
       -- yield _maybe_with_context(res, copy.deepcopy(self._cur_context))
-      let c := curTok ns w s
-      let d := c.1.copy ns c.2
-      (d.1, { s with cur := some c.2 }, { outs := [maybeWithContext d.1 (.str "vmc") d.2] })
-  | .vectorize _ =>
-    let c := curTok ns w s
-    let d := c.1.copy ns c.2
-    (d.1, { s with cur := some c.2 }, { outs := [maybeWithContext d.1 (.str "vec") d.2] })
-  | .histogram =>
+      let c ← curTok ns s
+      let d ← copyM ns c
+      let y ← maybeWithContext (.str "vmc") d
+      pure ({ s with cur := some c }, { outs := [y] })
+  | .vectorize _ => do
+    let c ← curTok ns s
+    let d ← copyM ns c
+    let y ← maybeWithContext (.str "vec") d
+    pure ({ s with cur := some c }, { outs := [y] })
+  | .histogram => do
     -- yield (self._hist, copy.deepcopy(self._cur_context))
-    let c := curTok ns w s
-    let d := c.1.copy ns c.2
-    (d.1, { s with cur := some c.2 }, { outs := [mkItem (.str "hist") (some d.2)] })
-  | .sib var _ _ =>
+    let c ← curTok ns s
+    let d ← copyM ns c
+    pure ({ s with cur := some c }, { outs := [mkItem (.str "hist") (some d)] })
+  | .sib var _ _ => do
     -- cur_context = self._cur_context; self._arg_var._update_context(cur_context, deepcopy(var_context))
-    let c := curTok ns w s
-    let w1 := c.1.upd c.2 (setVariable var)
+    let c ← curTok ns s
+    updM c (setVariable var)
     -- yield (hist, copy.deepcopy(cur_context))
-    let d := w1.copy ns c.2
-    (d.1, { s with cur := some c.2 }, { outs := [mkItem (.str "hist") (some d.2)] })
-  | .store => (w, s, { outs := s.group })
-  | .keepLast => (w, s, { outs := s.group.getLast?.toList })
-  | .reqStore => (w, { s with group := [] }, { outs := s.group })
+    let d ← copyM ns c
+    pure ({ s with cur := some c }, { outs := [mkItem (.str "hist") (some d)] })
+  | .store => pure (s, { outs := s.group })
+  | .keepLast => pure (s, { outs := s.group.getLast?.toList })
+  | .reqStore => pure ({ s with group := [] }, { outs := s.group })
 
 /-! ## per-value elements that mutate data and context in place -/
 
@@ -611,17 +637,19 @@ def setPath2 (a b : String) (u : Value) (v : Value) : Value :=
     | _ => []
   .dict (dictSet top a (.dict (dictSet sub b u)))
 
-/-- `MakeFilename(name).__call__` on a context: nothing if `output.filename` exists, else
-`update_recursively(context, {"output": {"filename": name}})` -/
+/-- `"output" in context and "filename" in context["output"]` -/
+def hasFilename (v : Value) : Bool :=
+  match (ctxOf v).lookup "output" with
+  | some (.dict kvs) => (kvs.lookup "filename").isSome
+  | _ => false
+
+/-- `update_recursively(context, {"output": {"filename": name}})` on a context without
+`output.filename` -/
 def makeFilename (name : String) (v : Value) : Value :=
   let top := ctxOf v
   match top.lookup "output" with
-  | some (.dict kvs) =>
-    match kvs.lookup "filename" with
-    | some _ => v
-    | none => .dict (dictSet top "output" (.dict (dictSet kvs "filename" (.str name))))
-  | some _ => .dict (dictSet top "output" (.dict [("filename", .str name)]))
-  | none => .dict (dictSet top "output" (.dict [("filename", .str name)]))
+  | some (.dict kvs) => .dict (dictSet top "output" (.dict (dictSet kvs "filename" (.str name))))
+  | _ => .dict (dictSet top "output" (.dict [("filename", .str name)]))
 
 def listOf : Value → List Value
   | .list xs => xs
@@ -639,68 +667,62 @@ def getter : Option Value → Option Value
   | some (.int i) => some (.int (i + 1))
   | d => d
 
-/-- outcome of one element of a fill sequence for one value -/
-inductive StepOut where
-  /-- the (possibly new) value goes on to the next element -/
-  | pass (w : PW) (n : Nat) (x : HItem)
-  /-- `LenaStopFill` -/
-  | stop (w : PW) (n : Nat)
-
 /-- one element applied to one value (`__call__` through `FillInto`/`Run`, or `fill_into`); `n` is the
-element's own counter (`Count.count`, `Slice._index`) -/
-def applyStep (ns : Nat) (e : Step) (w : PW) (n : Nat) (x : HItem) : StepOut :=
+element's own counter (`Count.count`, `Slice._index`).  Returns the new counter and the (possibly
+new) value that goes on to the next element; `none`: `LenaStopFill` was raised. -/
+def applyStep (ns : Nat) (e : Step) (n : Nat) (x : HItem) : M (Nat × Option HItem) :=
   match e with
-  | .var name =>
+  | .var name => do
     -- data, context = get_data_context(value); data = self.getter(data);
     -- self._update_context(context, copy.deepcopy(self.var_context)); return (data, context)
-    let g := getCtx ns w x
-    let y : HItem := { x with skel := { x.skel with data := getter x.skel.data } }
-    .pass (g.1.upd g.2 (setVariable name)) n (y.withCtx g.2)
-  | .upd key v =>
-    let g := getCtx ns w x
-    .pass (g.1.upd g.2 (setPath2 "upd" key (.int v))) n (x.withCtx g.2)
-  | .mkfn name =>
+    let c ← getCtx ns x
+    updM c (setVariable name)
+    pure (n, some (HItem.withCtx { x with skel := { x.skel with data := getter x.skel.data } } c))
+  | .upd key v => do
+    let c ← getCtx ns x
+    updM c (setPath2 "upd" key (.int v))
+    pure (n, some (x.withCtx c))
+  | .mkfn name => do
     -- context = get_context(value); …; if modified: return (data, context) else: return value
-    let g := getCtx ns w x
-    let old := g.1.st g.2
-    let new := makeFilename name old
-    match (ctxOf old).lookup "output" with
-    | some (.dict kvs) =>
-      if (kvs.lookup "filename").isSome then .pass w n x
-      else .pass (g.1.upd g.2 (fun _ => new)) n (x.withCtx g.2)
-    | _ => .pass (g.1.upd g.2 (fun _ => new)) n (x.withCtx g.2)
-  | .tag name =>
-    let g := getCtx ns w x
-    .pass (g.1.upd g.2 (addTag name)) n (x.withCtx g.2)
+    let c ← getCtx ns x
+    let v ← readM c
+    match hasFilename v with
+    | true => pure (n, some x)
+    | false => do
+      writeM c (makeFilename name v)
+      pure (n, some (x.withCtx c))
+  | .tag name => do
+    let c ← getCtx ns x
+    updM c (addTag name)
+    pure (n, some (x.withCtx c))
   | .app v =>
     match x.dataTok with
-    | some d => .pass (w.upd d (fun l => .list (listOf l ++ [.int v]))) n x
-    | none => .pass w n x
-  | .count name =>
+    | some d => do
+      updM d (fun l => .list (listOf l ++ [.int v]))
+      pure (n, some x)
+    | none => pure (n, some x)
+  | .count name => do
     -- Count.fill_into: self.count += 1; data, context = get_data_context(value);
     -- context.update({self.name: self.count}); element.fill((data, context))
-    let g := getCtx ns w x
-    .pass (g.1.upd g.2 (fun c => .dict (dictSet (ctxOf c) name (.int (n + 1))))) (n + 1) (x.withCtx g.2)
+    let c ← getCtx ns x
+    updM c (fun v => .dict (dictSet (ctxOf v) name (.int (n + 1))))
+    pure (n + 1, some (x.withCtx c))
   | .stop m =>
     -- Slice.fill_into: the value with index `m` raises LenaStopFill; earlier ones are passed on
-    if n ≥ m then .stop w n else .pass w (n + 1) x
+    if n ≥ m then pure (n, none) else pure (n + 1, some x)
 
-/-- outcome of a whole fill sequence for one value -/
-structure ChainOut where
-  w : PW
-  ns : List Nat
-  x : Option HItem
-  stopped : Bool
-
-/-- the chain of `_Fill` objects of a `FillSeq`: every element transforms the value and fills the next -/
-def applySteps (ns : Nat) : List Step → PW → List Nat → HItem → ChainOut
-  | [], w, _, x => ⟨w, [], some x, false⟩
-  | e :: es, w, cs, x =>
-    match applyStep ns e w (cs.headD 0) x with
-    | .stop w' n' => ⟨w', n' :: cs.tail, none, true⟩
-    | .pass w' n' y =>
-      let r := applySteps ns es w' cs.tail y
-      ⟨r.w, n' :: r.ns, r.x, r.stopped⟩
+/-- the chain of `_Fill` objects of a `FillSeq`: every element transforms the value and fills the
+next.  Returns the counters of the elements and the value that reaches the end (`none`:
+`LenaStopFill` was raised on the way). -/
+def applySteps (ns : Nat) : List Step → List Nat → HItem → M (List Nat × Option HItem)
+  | [], _, x => pure ([], some x)
+  | e :: es, cs, x => do
+    let a ← applyStep ns e (cs.headD 0) x
+    match a.2 with
+    | none => pure (a.1 :: cs.tail, none)
+    | some y => do
+      let r ← applySteps ns es cs.tail y
+      pure (a.1 :: r.1, r.2)
 
 /-! ## the branches of the harness -/
 
@@ -720,23 +742,23 @@ structure HSt where
   acc : AccSt := {}
   deriving Repr
 
-/-- `Sequence(*steps).run(buf)`: every value passes through all elements; a `Count` (last element)
-then writes its counter into the context of the last value of the buffer -/
-def runSteps (ns : Nat) (steps : List Step) : PW → List Nat → List HItem → PW × List Nat × List HItem
-  | w, cs, [] => (w, cs, [])
-  | w, cs, x :: xs =>
-    let r := applySteps ns steps w cs x
-    let q := runSteps ns steps r.w r.ns xs
-    (q.1, q.2.1, r.x.toList ++ q.2.2)
+/-- `Sequence(*steps).run(buf)`: every value passes through all elements -/
+def runSteps (ns : Nat) (steps : List Step) : List Nat → List HItem → M (List Nat × List HItem)
+  | cs, [] => pure (cs, [])
+  | cs, x :: xs => do
+    let r ← applySteps ns steps cs x
+    let q ← runSteps ns steps r.1 xs
+    pure (q.1, r.2.toList ++ q.2)
 
 /-- the effect of `Count.run` at the end of a buffer: `context.update({self.name: self.count})` on the
 last value -/
-def countAtEnd (ns : Nat) (name : String) (w : PW) (count : Nat) (ys : List HItem) : PW × List HItem :=
+def countAtEnd (ns : Nat) (name : String) (count : Nat) (ys : List HItem) : M (List HItem) :=
   match ys.getLast? with
-  | none => (w, ys)
-  | some y =>
-    let g := getCtx ns w y
-    (g.1.upd g.2 (fun c => .dict (dictSet (ctxOf c) name (.int count))), ys.dropLast ++ [y.withCtx g.2])
+  | none => pure ys
+  | some y => do
+    let c ← getCtx ns y
+    updM c (fun v => .dict (dictSet (ctxOf v) name (.int count)))
+    pure (ys.dropLast ++ [y.withCtx c])
 
 /-- the steps of a `sequence` branch without a final `Count`, and that `Count`'s name -/
 def splitLastCount (steps : List Step) : List Step × Option String :=
@@ -745,39 +767,45 @@ def splitLastCount (steps : List Step) : List Step × Option String :=
   | _ => (steps, none)
 
 /-- a user source: `total` new values `(j, {"src": j})`, `j = 0 … total - 1` -/
-def mkSrc (ns total : Nat) (w : PW) : Nat → List HItem → PW × List HItem
-  | 0, acc => (w, acc)
-  | j + 1, acc =>
-    let a := w.alloc ns (.dict [("src", .int (total - (j + 1)))])
-    mkSrc ns total a.1 j (acc ++ [mkItem (.int (total - (j + 1))) (some a.2)])
+def mkSrc (ns total : Nat) : Nat → List HItem → M (List HItem)
+  | 0, acc => pure acc
+  | j + 1, acc => do
+    let c ← allocM ns (.dict [("src", .int (total - (j + 1)))])
+    mkSrc ns total j (acc ++ [mkItem (.int (total - (j + 1))) (some c)])
 
-def hAct (ns : Nat) (sp : BSpec) (st : Store Value) (s : HSt) (r : Req Skel) : Store Value × HSt × Resp Skel :=
+/-- the code of one method invocation on a harness branch: new private state and response -/
+def hActM (ns : Nat) (sp : BSpec) (s : HSt) (r : Req Skel) : M (HSt × Resp Skel) :=
   match r with
-  | .call =>
-    let m := mkSrc ns sp.srcN ⟨st, s.ctr⟩ sp.srcN []
-    (m.1.st, { s with ctr := m.1.ctr }, { outs := m.2 })
-  | .fill x =>
-    let c := applySteps ns sp.steps ⟨st, s.ctr⟩ s.cs x
-    match c.x with
-    | none => (c.w.st, { s with ctr := c.w.ctr, cs := c.ns }, { stopped := c.stopped })
-    | some y =>
-      let f := accFill ns sp.term c.w s.acc y
-      (f.1.st, { ctr := f.1.ctr, cs := c.ns, acc := f.2 }, {})
-  | .compute | .request =>
-    let f := accCompute ns sp.term ⟨st, s.ctr⟩ s.acc
-    (f.1.st, { s with ctr := f.1.ctr, acc := f.2.1 }, f.2.2)
-  | .run buf =>
+  | .call => do
+    let outs ← mkSrc ns sp.srcN sp.srcN []
+    pure (s, { outs := outs })
+  | .fill x => do
+    let c ← applySteps ns sp.steps s.cs x
+    match c.2 with
+    | none => pure ({ s with cs := c.1 }, { stopped := true })
+    | some y => do
+      let a ← accFill ns sp.term s.acc y
+      pure ({ s with cs := c.1, acc := a }, {})
+  | .compute | .request => do
+    let f ← accCompute ns sp.term s.acc
+    pure ({ s with acc := f.1 }, f.2)
+  | .run buf => do
     let sl := splitLastCount sp.steps
-    let q := runSteps ns sl.1 ⟨st, s.ctr⟩ s.cs buf
+    let q ← runSteps ns sl.1 s.cs buf
     match sl.2 with
-    | none => (q.1.st, { s with ctr := q.1.ctr, cs := q.2.1 }, { outs := q.2.2 })
-    | some name =>
+    | none => pure ({ s with cs := q.1 }, { outs := q.2 })
+    | some name => do
       -- Count.run: self.count += (number of values); the last value gets {name: self.count}
       let k := sl.1.length
-      let old := (s.cs.drop k).headD 0
-      let new := old + q.2.2.length
-      let e := countAtEnd ns name q.1 new q.2.2
-      (e.1.st, { s with ctr := e.1.ctr, cs := q.2.1.take k ++ [new] }, { outs := e.2 })
+      let new := (s.cs.drop k).headD 0 + q.2.length
+      let ys ← countAtEnd ns name new q.2
+      pure ({ s with cs := q.1.take k ++ [new] }, { outs := ys })
+
+/-- a method invocation on the shared heap: the private world is the heap and the branch's own
+allocation counter -/
+def hAct (ns : Nat) (sp : BSpec) (st : Store Value) (s : HSt) (r : Req Skel) : Store Value × HSt × Resp Skel :=
+  let a := (hActM ns sp s r).run ⟨st, s.ctr⟩
+  (a.1.st, { a.2.1 with ctr := a.1.ctr }, a.2.2)
 
 def hOps (ns : Nat) (sp : BSpec) : Ops HSt Skel Value :=
   { act := hAct ns sp, refs := fun s => s.acc.refs }
